@@ -3,7 +3,7 @@ from __future__ import annotations
 
 import ast
 
-from ..core import call_name, kwarg, norm
+from ..core import call_name, ctext, kwarg, norm
 from ..util import assigned_targets, parent_map
 
 EXPLANATION = """
@@ -43,7 +43,7 @@ def check(ctx):
     comp = ctx.cls(CO, "Compatibility", R)
     ht = comp.methods.get("_get_hash_tuple")
     ctx.require(ht is not None, R, "_get_hash_tuple")
-    for m, pat in (("__hash__", "hash(self._get_hash_tuple())"), ("__eq__", "self._get_hash_tuple() == other._get_hash_tuple()"), ("__lt__", "self._get_hash_tuple() < other._get_hash_tuple()")):
+    for m, pat in (("__hash__", "hash(self._get_hash_tuple())"), ("__eq__", "self._get_hash_tuple() == other._get_hash_tuple()"), ("__lt__", ctext("self._get_hash_tuple() < other._get_hash_tuple()"))):
         f = comp.methods.get(m)
         if f is None:
             ctx.bad(R, comp, comp.node, f"Compatibility.{m} is missing")
@@ -76,7 +76,7 @@ def check(ctx):
     fz = ctx.cls(FZ, "fzs", R)
     for m, op in (("__lt__", "<"), ("__le__", "<="), ("__gt__", ">"), ("__ge__", ">=")):
         f = fz.methods.get(m)
-        ok = f is not None and [norm(s.value) for s in f.stmts() if isinstance(s, ast.Return)] == [f"sorted(self) {op} sorted(other)"]
+        ok = f is not None and [norm(s.value) for s in f.stmts() if isinstance(s, ast.Return)] == [ctext(f"sorted(self) {op} sorted(other)")]
         ctx.check(ok, R, f if f is not None else fz, f.node.body[-1] if f is not None else fz.node, f"fzs.{m} is not `sorted(self) {op} sorted(other)` (subset order is not a total order: sorting keys becomes hash-dependent)", f"fzs.{m} total order")
     ctx.floor(R, 12)
 
@@ -134,7 +134,7 @@ def check(ctx):
     ctx.check(ok, R, jp, tr[0] if tr else loop, "the compatibility merge is not the guarded operation", "Compatibility.merge_next inside the try")
     ctx.check(not any(app_stmt is x for t in tr for x in ast.walk(t)), R, jp, app_stmt, "the table merge sits inside the try: a ValueError from the data merge would silently drop a compatible pair", "table merge outside the try")
     cm = ctx.func(CO, "Compatibility.merge_next", R)
-    ifs = [s for s in cm.stmts() if isinstance(s, ast.If) and "self_freed.n_loops > right_freed.n_loops" in norm(s.test)]
+    ifs = [s for s in cm.stmts() if isinstance(s, ast.If) and ctext("self_freed.n_loops > right_freed.n_loops") in norm(s.test)]
     ok = len(ifs) == 1 and isinstance(ifs[0].body[-1], ast.Raise) and "ValueError" in norm(ifs[0].body[-1])
     ctx.check(ok, R, cm, ifs[0].test if ifs else cm.node, "the loop-count incompatibility does not raise ValueError (returning instead would merge an impossible dataflow)", "more loops on the left => ValueError")
     ctx.floor(R, 6)
